@@ -74,11 +74,20 @@ class Binding(object):
     def build(self, rows):
         """abstract rows -> (grid, row dicts, per row {tag: (object, repr, code)})."""
         hs = self.hs
-        g = hs.Grid(version='3.0', metadata={'m': 1, 'site': 'x'},
-                    columns=[('id', []), ('a', [('unit', 'x')]), ('b', []), ('c', [('doc', 'y')])])
+        promote = getattr(self, 'promote', False) and len(rows) > 0
+        if promote:
+            # a grid built WITHOUT a version, raised to 3.0 by one row's value alone (a list in the hidden tag z
+            # of the last row): the result of filter() must carry the version over whichever rows it selects
+            g = hs.Grid(metadata={'m': 1, 'site': 'x'},
+                        columns=[('id', []), ('a', [('unit', 'x')]), ('b', []), ('c', [('doc', 'y')]), ('z', [])])
+        else:
+            g = hs.Grid(version='3.0', metadata={'m': 1, 'site': 'x'},
+                        columns=[('id', []), ('a', [('unit', 'x')]), ('b', []), ('c', [('doc', 'y')])])
         objs, origin = [], []
-        for r in rows:
+        for ri, r in enumerate(rows):
             row, org = {}, {}
+            if promote and ri == len(rows) - 1:
+                row['z'] = [1.0]
             if r[0]:
                 row['id'] = 'id%d' % r[0]
             for j, tag in enumerate(TAGS):
@@ -140,7 +149,7 @@ def snapshot(g, rows, objs, origin):
                 rec += list(org[tag][2])
             else:
                 rec += [CHANGED, CHANGED]
-        if set(o) - set(['id'] + TAGS):
+        if set(o) - set(['id', 'z'] + TAGS):
             rec[0] = CHANGED
         out.append(rec)
     return out
@@ -426,6 +435,11 @@ def limits_of(case):
     return [0] + (ks if ks else [1, 2])
 
 
+def promote_of(text):
+    """a deterministic fifth of the filters runs on a grid whose version was detected from a row value"""
+    return sum(ord(ch) for ch in text) % 5 == 2
+
+
 def replay_generated(rep, b, cases, viol):
     stats = {'cases': 0, 'calls': 0, 'rows': 0, 'both_values': 0, 'limit_exact': 0, 'undetermined_cases': 0,
              'raising_cases': 0}
@@ -434,8 +448,9 @@ def replay_generated(rep, b, cases, viol):
         rows = case['rows']
         limits = limits_of(case)
         b.noise = ('->' in text)      # reference following is exercised on a grid with a mutation history
+        b.promote = promote_of(text)
         src_shape, calls = execute(b, text, rows, limits)
-        b.noise = False
+        b.noise = b.promote = False
         stats['cases'] += 1
         stats['calls'] += len(calls)
         stats['rows'] += len(rows)
@@ -536,7 +551,9 @@ def random_case(rng, b):
 def run_random(b, cases):
     evs = []
     for c in cases:
+        b.promote = promote_of(spell(c['toks']))
         src_shape, calls = execute(b, spell(c['toks']), c['rows'], c['limits'])
+        b.promote = False
         evs.append({'ast': c['ast'], 'toks': c['toks'], 'rows': c['rows'], 'shape': src_shape, 'calls': calls})
     return evs
 
@@ -841,7 +858,9 @@ def replay(path):
     elif c['role'] == 'B':
         case = {'text': [ord(ch) for ch in c['text']], 'rows': c['rows'], 'exp': c['allowed_per_row'],
                 'lims': c['lims'], 'ast': c['ast']}
+        b.promote = promote_of(c['text'])
         src_shape, calls = execute(b, c['text'], c['rows'], limits_of(case))
+        b.promote = False
         bad = compare_case(case, src_shape, calls)
         print('filter   :', c['text'])
         for cl in calls:
